@@ -344,7 +344,7 @@ def agreement_task(ctx, examples, shard):
     strat = st.fixed_dictionaries(
         {
             "kind": st.just("agree"), "leaf": st.sampled_from(["ed25519", "rsa", "p256", "p384", "ed448", "chain2"]), "c_suites": suite_list, "s_suites": suite_list, "c_versions": ver_list, "s_versions": ver_list,
-            "c_original": st.sampled_from([None, V1, V2]), "c_alpn": alpn_list, "s_alpn": alpn_list, "resume": st.booleans(), "retry": st.sampled_from([False, False, True]),
+            "c_original": st.sampled_from([None, V1, V2]), "c_alpn": alpn_list, "s_alpn": alpn_list, "resume": st.booleans(), "t_suites": st.one_of(st.none(), suite_list), "retry": st.sampled_from([False, False, True]),
             "mds": st.sampled_from([1200, 1350]), "fates": st.one_of(st.just([]), st.lists(fate, max_size=30)),
         }
     )
@@ -391,7 +391,7 @@ def agreement_case(ctx, case):
     sim_case = {
         "cfg": {
             "leaf": case["leaf"], "mds": case["mds"], "retry": case["retry"], "c_keylog": True, "client_versions": case["c_versions"], "server_versions": case["s_versions"],
-            "client_version": cv, "c_suites": case["c_suites"], "s_suites": case["s_suites"], "c_alpn": case["c_alpn"], "s_alpn": case["s_alpn"], "resume": case["resume"],
+            "client_version": cv, "c_suites": case["c_suites"], "s_suites": case["s_suites"], "c_alpn": case["c_alpn"], "s_alpn": case["s_alpn"], "resume": case["resume"], "t_suites": case.get("t_suites"),
         },
         "script": [{"t": 0.3, "who": "c", "op": "ping"}], "fates": case["fates"], "jitter": [0.0], "adv_end": 2.0, "fair": 6.0,
     }
@@ -468,7 +468,11 @@ class AgreementSim(_simnet.Sim):
             got = []
             store = self.tickets
             # a prior, lossless connection with the same configurations provides the ticket
-            c0 = QuicConnection(configuration=self._copy_cfg(self.ccfg), session_ticket_handler=got.append)
+            # ... except, sometimes, for the client's cipher suites: the ticket may then belong to a suite the new connection does not negotiate
+            c0cfg = self._copy_cfg(self.ccfg)
+            if cfg.get("t_suites"):
+                c0cfg.cipher_suites = [T.CipherSuite(x) for x in cfg["t_suites"]]
+            c0 = QuicConnection(configuration=c0cfg, session_ticket_handler=got.append)
             c0.connect(E.SERVER_ADDR, now=0.0)
             s0 = QuicConnection(configuration=self._copy_cfg(self.scfg), original_destination_connection_id=c0.original_destination_connection_id, session_ticket_fetcher=store.pop, session_ticket_handler=lambda t: store.__setitem__(t.ticket, t))
             now = 0.0
